@@ -1596,13 +1596,17 @@ func r13WindingOrder(c *core.Ctx) {
 			c.Unknown(R, "orientation-by-trusted-primitive/"+w.Name, w.Decl.Pos(), "the orientation of a ring is no longer decided by go-spatial's winding.Order.OfPoints on the whole ring. That primitive is the trusted base of the orientation clauses (a shoelace sum over absolute coordinates, for instance, cancels to noise for small rings far from the origin): the rule cannot vouch for a replacement")
 		}
 		// and it is the only orientation test used by normalisation and by the split classification
-		users := 0
-		for _, fn := range []string{"snap.ensureCorrectWindingOrder", "snap.splitRing"} {
-			if f := c.P.Funcs[fn]; f != nil {
-				users += len(core.CallsIn(f.Pkg.TypesInfo, f.Decl, "snap.windingOrderIsCorrect"))
+		// (wherever in package snap those live: every orientation test goes through windingOrderIsCorrect, and nothing
+		// else in the package asks the library for an orientation)
+		users, others := 0, 0
+		for _, f := range sortedFuncs(c.P) {
+			if f.Pkg != w.Pkg || f == w || f.Decl.Body == nil {
+				continue
 			}
+			users += len(core.CallsIn(f.Pkg.TypesInfo, f.Decl, "snap.windingOrderIsCorrect"))
+			others += len(core.CallsIn(f.Pkg.TypesInfo, f.Decl, "github.com/go-spatial/geom/winding.Order.OfPoints", "github.com/go-spatial/geom/winding.Order.OfGeomPoints", "github.com/go-spatial/geom/winding.Orient"))
 		}
-		c.Check(R, "orientation-predicate-shared/snap", w.Decl.Pos(), users >= 3, fmt.Sprintf("%d uses in ensureCorrectWindingOrder and splitRing", users), "normalisation and split classification no longer share one orientation predicate")
+		c.Check(R, "orientation-predicate-shared/snap", w.Decl.Pos(), users >= 3 && others == 0, fmt.Sprintf("%d uses of windingOrderIsCorrect in package snap (normalisation and split classification), no other orientation test", users), fmt.Sprintf("normalisation and split classification no longer share one orientation predicate (%d uses of windingOrderIsCorrect, %d other orientation tests)", users, others))
 	}
 	// an inner ring that becomes the shell of a polygon of its own is turned around first
 	if mf := c.Anchor(R, "snap.matchInnersToPolygons"); mf != nil {
